@@ -2,6 +2,7 @@
 from __future__ import annotations
 
 import os
+import shutil
 import re
 import typing
 
@@ -73,7 +74,9 @@ def gen_tree(rng, scratch: str) -> typing.Tuple[Tree, typing.List[bytes], typing
            "1Described, plain\tdescribed\n0A file with a slash\tfile.txt/\n"
            # absolute selectors: they name objects of the site, not members (whatever their length or their last component)
            "0Site file\t/ZQXSITE-file.txt\n0Same length as the archive's name\t/ZQXSITEdir/mapped-dir/file.txt\n1Site directory\t/ZQXSITEdir\n"
-           "0Not there at all\t/ZQXSITE-nothing.txt\n")
+           "0Not there at all\t/ZQXSITE-nothing.txt\n"
+           # ... nor do objects whose names merely begin with the archive's (a checksum beside it, an older copy)
+           "0Checksum of the archive\t/ZQXARCH.zip.sha256\n1Older copy, unpacked\t/ZQXARCH.zip.old\n0In the older copy\t/ZQXARCH.zip.old/file.txt\n")
     t.file(b"mapped-dir/described/inside.txt", "inside\n")
     t.file(b"mapped-dir/described/.abstract", "Abstract of the described directory")
     t.file(b"mapped-dir/described/.keywords", "described, keywords")
@@ -162,6 +165,9 @@ def differential(chk: Check, sc: Scratch, idx: int) -> None:
     # objects of the site itself, named by absolute selectors in the archived gophermap (one sits where cutting the
     # archive's name off the selector would land on a member)
     site_tree.file(b"ZQXSITE-file.txt", "a file of the site\n" * 300)
+    site_tree.file(ARCH + b".zip.sha256", "0123456789abcdef  ZQXARCH.zip\n")
+    site_tree.file(ARCH + b".zip.sha256.abstract", "Checksum file of the site")
+    site_tree.file(ARCH + b".zip.old/file.txt", "older\n" * 50)
     site_tree.file(b"ZQXSITEdir/mapped-dir/file.txt", "the site's own file, not the member\n" * 100)
     site_tree.file(b"ZQXSITEdir/mapped-dir/file.txt.abstract", "Abstract of the site's file")
     site_tree.materialize(root)
@@ -463,6 +469,46 @@ def degenerate_archives(chk: Check, sc: Scratch) -> None:
         site.close()
 
 
+def archive_replaced(chk: Check, sc: Scratch) -> None:
+    """One long-lived server; the archive (and the extracted tree beside it) is replaced by a new release that keeps the
+    old one's modification time (cp -p, rsync -t, a rebuild within the same second).  What is served is what is there."""
+    root = sc.sub("replaced")
+    stamp = 1600000000
+
+    def release(n: int) -> Tree:
+        t = Tree().file("readme.txt", "This is release %d.\n" % n).file("sub%d/x.txt" % n, "x%d\n" % n)
+        t.file("only-in-%d.txt" % n, "only %d\n" % n).file("same.txt", "same in every release\n")
+        return t
+
+    site = driver.Site(root, handlers=driver.HANDLERS_FULL)
+    try:
+        for n in (1, 2, 3):
+            t = release(n)
+            shutil.rmtree(os.path.join(root, "ZQXREL"), ignore_errors=True)
+            Tree().subtree(b"ZQXREL", t).materialize(root)
+            tmp = os.path.join(root, ".incoming")
+            with open(tmp, "wb") as fp:
+                fp.write(t.to_zip())
+            os.utime(tmp, (stamp, stamp))
+            os.replace(tmp, os.path.join(root, "ZQXREL.zip"))
+            sels = [b"", b"/readme.txt", b"/same.txt"] + [b"/only-in-%d.txt" % k for k in (1, 2, 3)] + [b"/sub%d" % k for k in (1, 2, 3)] + \
+                   [b"/sub%d/x.txt" % k for k in (1, 2, 3)]
+            for sel in sels:
+                for view in ("gopher", "gopherp$", "gopherp+", "http"):
+                    driver.clean_server_files(root)       # (the on-disk member index is another matter)
+                    a_req, tls = reqs.render(view, b"/ZQXREL" + sel)
+                    z_req, _ = reqs.render(view, b"/ZQXREL.zip" + sel)
+                    ra, rz = site.request(a_req, tls=tls), site.request(z_req, tls=tls)
+                    chk.count("replaced_archive_pairs")
+                    if norm(ra.data) != norm(rz.data.replace(b"ZQXREL.zip", b"ZQXREL")):
+                        chk.witness("C16/differs:archive-replaced-with-the-same-mtime:%s" % reqs.VIEWS[view][0],
+                                    {"release": n, "selector": sel, "view": view, "disk": ra.data[:300], "zip": rz.data[:300], "ziplog": rz.log[:3]})
+                        return
+                    chk.case(("replaced", n, sel, view), None)
+    finally:
+        site.close()
+
+
 def main() -> int:
     chk = Check("C16", "exploration")
     quick = chk.tier == "quick"
@@ -478,6 +524,7 @@ def main() -> int:
                 escaping_symlink(chk, sc)
                 odd_member_names(chk, sc)
                 degenerate_archives(chk, sc)
+                archive_replaced(chk, sc)
     return chk.finish(
         rule="case = (selector, protocol view): the reply for /T.zip/<sel> must equal the reply for /T/<sel> (the same "
              "tree extracted, symlink members mirrored as symlinks) after replacing the prefix and dropping "
